@@ -694,6 +694,12 @@ func TestC08(t *testing.T) {
 		c13Explore(t, c, k)
 	}
 	c13TestName = "TestC13"
+	// peers with different compression habits, one after the other through a handler that supports two algorithms
+	{
+		d, co := XorAlg(0xA1)
+		mixedPeers(t, c, "TestC08", []connect.HandlerOption{connect.WithCompression("alg1", d, co), connect.WithCompressMinBytes(1)},
+			[]mixedPeer{{"", "gzip"}, {"", "alg1"}, {"", "alg1,gzip"}, {"", "gzip,alg1"}, {"alg1", "gzip"}, {"gzip", "alg1"}, {"alg1", "gzip,alg1"}, {"gzip", "alg1,gzip"}, {"alg1", ""}, {"", ""}})
+	}
 	// two requests compressed with a custom algorithm served concurrently by one handler
 	for _, p := range AllProtos {
 		for _, kind := range []Kind{KUnary, KServer} {
